@@ -35,7 +35,8 @@ def bounds(tier, seed):
 
 
 class Seam:
-    def __init__(self, mode="tag", m=32):
+    def __init__(self, mode="tag", m=32, dtype=torch.float64):
+        self.dtype = dtype
         self.calls = []
         self.items = []
         self.mode = mode
@@ -59,19 +60,22 @@ class Seam:
                 out[r] = float(torch.special.ndtri(torch.tensor(q, dtype=torch.float64)))
             self.items.append(out[r].clone())
             self.k += 1
-        return out.reshape(n, *ev)
+        return out.reshape(n, *ev).to(self.dtype)
 
 
 def pairing_case(dname, cfg, rows, n, seed):
     out = []
     d = DC.DSUBJECTS[dname]
-    obj = DC.materialise(d, cfg, "pat1", seed)
+    # the MADE mixture's sampler allocates default-dtype (float32) buffers itself: flows on that base are run in float32
+    dt = torch.float32 if cfg.get("base") == "mog" else torch.float64
+    eq_tol = 1e-4 if dt == torch.float32 else 1e-9
+    obj = DC.materialise(d, cfg, "pat1", seed, dtype=dt)
     es = d.event_shape(cfg)
     has_ctx = d.ctx_shape(cfg) is not None
-    ctx = d.contexts(cfg, rows, seed) if has_ctx else None
+    ctx = d.contexts(cfg, rows, seed, dtype=dt) if has_ctx else None
     R = rows if has_ctx else 1
     lead = (R, n) if has_ctx else (n,)
-    sm = Seam("tag")
+    sm = Seam("tag", dtype=dt)
     try:
         with mock.patch.object(torch, "randn", sm.randn), torch.no_grad():
             s, lp = obj.sample_and_log_prob(n, context=ctx)
@@ -81,34 +85,34 @@ def pairing_case(dname, cfg, rows, n, seed):
         return [("sample_and_log_prob", "raises %s" % type(e).__name__, "sample_and_log_prob(%d, context=%s): %s: %s" % (n, None if ctx is None else "%d rows" % R, type(e).__name__, str(e)[:120]))]
     if tuple(s.shape) != lead + tuple(es) or tuple(lp.shape) != lead:
         return [("sample_and_log_prob", "wrong shapes", "samples %s log_prob %s, documented %s / %s" % (tuple(s.shape), tuple(lp.shape), lead + tuple(es), lead))]
-    if sum(c[0] for c in sm.calls) != R * n or any(tuple(c[1:]) != tuple(es) for c in sm.calls):
+    base = cfg.get("base", "standard")
+    if base != "mog" and (sum(c[0] for c in sm.calls) != R * n or any(tuple(c[1:]) != tuple(es) for c in sm.calls)):
         out.append(("sampler", "noise not drawn once per (context row, draw)", "randn was called with sizes %s; expected %d items of event shape %s in total" % (sm.calls, R * n, tuple(es))))
     flat = s.reshape(R * n, *es)
     cflat = None if ctx is None else ctx.repeat_interleave(n, dim=0)
     with torch.no_grad():
         lp2 = obj.log_prob(flat, context=cflat).reshape(lead)
     dl = float((lp - lp2).abs().max())
-    if not dl <= 1e-9 * (1 + float(lp2.abs().max())):
+    if not dl <= eq_tol * (1 + float(lp2.abs().max())):
         out.append(("sample_and_log_prob", "returned log_prob is not log_prob(sample | its context row)", "sample_and_log_prob(%d, %s): returned log-probs differ from log_prob(sample[i,j], context[i]) by %.3g" % (n, None if ctx is None else "%d rows" % R, dl)))
     # (b) noise recovery: item i*n+j
     with torch.no_grad():
         u = obj.transform_to_noise(flat, context=cflat).reshape(R * n, -1)
     Z = torch.stack(sm.items[: R * n]) if len(sm.items) >= R * n else None
-    base = cfg.get("base", "standard")
-    if Z is not None:
+    if Z is not None and not (base == "mog" and es != (1,)):
         if base == "standard":
-            dz = float((u - Z).abs().max())
+            dz = float((u.double() - Z).abs().max())
             if not dz <= 1e-7 * (1 + float(Z.abs().max())):
                 out.append(("transform_to_noise", "does not recover the injected noise item of (context row i, draw j)", "transform_to_noise(sample[i,j], context[i]) differs from injected item i*n+j by %.3g (n=%d, rows=%s)" % (dz, n, R)))
         elif n >= 3:
             # conditional base: u = mean_i + std_i * z  ->  (u_ij - u_i0) / (z_ij - z_i0) is the same for all j (per coordinate)
-            U, ZZ = u.reshape(R, n, -1), Z.reshape(R, n, -1)
+            U, ZZ = u.reshape(R, n, -1).double(), Z.reshape(R, n, -1)
             ratio = (U[:, 1:] - U[:, :1]) / (ZZ[:, 1:] - ZZ[:, :1])
             spread = float((ratio - ratio[:, :1]).abs().max())
-            if not spread <= 1e-7 * (1 + float(ratio.abs().max())):
+            if not spread <= (1e-7 if dt == torch.float64 else 1e-3) * (1 + float(ratio.abs().max())):
                 out.append(("transform_to_noise", "noise of a block is not affine in the injected items of that block", "conditional base: base samples of block i are not mean_i + std_i * (injected items i*n .. i*n+n-1); spread of implied std %.3g" % spread))
     # plain sample(): same pairing
-    sm2 = Seam("tag")
+    sm2 = Seam("tag", dtype=dt)
     try:
         with mock.patch.object(torch, "randn", sm2.randn), torch.no_grad():
             s2 = obj.sample(n, context=ctx)
@@ -132,11 +136,12 @@ def pushforward_case(dname, cfg, rows, seed, m):
     """1-feature flows: lattice noise -> samples at the matching quantiles of the quadrature CDF"""
     out = []
     d = DC.DSUBJECTS[dname]
-    obj = DC.materialise(d, cfg, "pat1", seed)
+    dt = torch.float32 if cfg.get("base") == "mog" else torch.float64
+    obj = DC.materialise(d, cfg, "pat1", seed, dtype=dt)
     has_ctx = d.ctx_shape(cfg) is not None
-    ctx = d.contexts(cfg, rows, seed) if has_ctx else None
+    ctx = d.contexts(cfg, rows, seed, dtype=dt) if has_ctx else None
     R = rows if has_ctx else 1
-    sm = Seam("lattice", m)
+    sm = Seam("lattice", m, dtype=dt)
     with mock.patch.object(torch, "randn", sm.randn), torch.no_grad():
         s = obj.sample(m, context=ctx)
     s = s.reshape(R, m).double()
@@ -146,12 +151,12 @@ def pushforward_case(dname, cfg, rows, seed, m):
 
         def lp1(t, c=c):
             cc = None if c is None else c.expand(t.shape[0], *c.shape[1:])
-            return obj.log_prob(t[:, None], context=cc)
+            return obj.log_prob(t[:, None].to(dt), context=cc).double()
 
         xs = s[r].numpy()
         order = np.argsort(xs)
         F, tot = cdf_1d(lp1, xs[order], n=2 ** 16, xmax=200.0)
-        if abs(tot - 1) > 1e-4:
+        if abs(tot - 1) > (1e-4 if dt == torch.float64 else 1e-3):
             out.append(("pushforward", "density not normalised (C03's subject)", "total mass %.6g" % tot))
             return out
         inc = bool(np.all(np.diff(order) > 0))
@@ -160,7 +165,7 @@ def pushforward_case(dname, cfg, rows, seed, m):
             out.append(("pushforward", "samples are not a monotone image of the noise lattice", "context row %d: order of samples %s" % (r, order.tolist()[:8])))
             return out
         err = float(np.max(np.abs(F - target)))
-        if err > 2e-4:
+        if err > (2e-4 if dt == torch.float64 else 2e-3):
             out.append(("pushforward", "samples do not follow exp(log_prob)", "context row %d: with the %d normal mid-quantiles injected, the sorted samples sit at CDF values off by up to %.3g" % (r, m, err)))
             return out
     return out
